@@ -278,7 +278,7 @@ CLAIMED = {
         "technique": "Coq proof (stream invariant over a fuelled evaluator model with the keyword model plugged in; fuel sufficiency) + differential correspondence",
     },
     "C01": {
-        "text": ("15 theorems (Coq, no axioms) over the evaluator model Eval.v (processor.py's query side, Python "
+        "text": ("14 theorems (Coq, no axioms) over the evaluator model Eval.v (processor.py's query side, Python "
                  "generators as streams): C01_required_sem_partial - for every non-null document and every path of "
                  "the fragment (key incl. Array-of-Hashes pass-through, index, slice, anchor, all five candidate "
                  "loops of a search on '.', a named attribute or a descendant path, all nine operators, inversion, "
@@ -286,8 +286,9 @@ CLAIMED = {
                  "meaning sem_doc of Spec/SpecC01.v (one declarative sel_* clause per segment kind composed by "
                  "flat_map): same node objects, same order, none missing, none extra, and the stream ends Done "
                  "(or Unmatched when empty); guard = the strict reading marks nothing, i.e. outside the listed "
-                 "findings F12a (descendant search reaching several nodes) and F29 (wildcard + filter over a "
-                 "set), each with a _refuted witness and non-vacuity Examples; C01_optional_on_existing_partial "
+                 "finding F12a (descendant search reaching several nodes), with a _refuted witness and "
+                 "non-vacuity Examples (F29, wildcard + filter over a set, is repaired and inside the "
+                 "theorem); C01_optional_on_existing_partial "
                  "(optional = required as streams, nothing created; guard excludes F10 / F16b); exists() iff the "
                  "required query yields a node; dot and slash texts of the same segments give equal escaped "
                  "segments (from C08; the step to equal prepared paths is not proved).  Tie: model vs "
